@@ -107,7 +107,11 @@ def run(ctx, model_ok):
     for e in pool:
         if len(cases) < n // 2 or ctx.tier != "quick":
             cases.append({"src": rc.gen_program(rng, nstmts=4), "tracers": [{"events": [e], "guards": rng.random() < 0.5}], "reference": [e], "export": True})
-    while len(cases) < n:
+    # the hand-written feature programs under all supported events
+    import battery
+    for name, src in sorted(battery.programs().items()):
+        cases.append({"src": src, "tracers": [{"events": list(pool), "guards": rng.random() < 0.5}], "reference": list(pool), "export": True, "battery": name})
+    while len(cases) < n + 6:
         cases.append(gen_case(rng, pool))
     impl = run_impl(cases)
     failures = []
